@@ -315,6 +315,9 @@ def classify(r):
         elif t == "numpy" and "AssertionError" in m["why"] and "dtype(" in m["why"] and all(mm["debug"] >= 1 for mm in ex["mismatches"]):
             out.append(("numpy:debug1:dtype-assertion-fails:static-type-differs-from-runtime-dtype",
                         "the debug>=1 dtype assertion fails although debug 0 returns the bits of direct evaluation (Expr.get_type disagrees with NumPy promotion, e.g. copysign(x32, y64), Python max/min of mixed dtypes; see C08): " + m["why"]))
+        elif r.get("narrow_np_constant") and t in ("numpy", "python") and ex.get("attrib") is None:
+            out.append((f"{t}:make_constant:narrower-numpy-scalar-printed-by-its-shortest-repr",
+                        "a numpy scalar constant narrower than the type of `like` is printed with str(value) (shortest repr in ITS precision) and re-read in the wider type, e.g. numpy.float32(0.1) like float64 -> numpy.float64(0.1): " + m["why"]))
         elif "NameError" in m["why"] and t == "numpy" and re.search(r"(?<![\w.])(inf|nan)j(?![\w(.])", text0):
             out.append(("numpy:make_constant:complex-inf-nan-part-printed-as-bare-name",
                         "complex constant with an infinite/NaN part printed as `(1+infj)`: " + m["why"]))
